@@ -1,10 +1,60 @@
-import Pendulum.Drv.Util
-/-! request handler for property C04 (stub until the property is built) -/
+import Pendulum.Drv.DTUtil
+import Pendulum.Model.CalOps
+/-! C04 requests (the plain `add <zref> <wall> <fold> <8 amounts>` request is served by Drv/C03):
+* `c04dur <plus|minus|plusneg|subcomp> <zref> <wall> <fold> <8 signature ints>` → `ok <wall> <offset> <fold>`
+  (`dt + d`, `dt - d`, `dt + (-d)`, `dt.subtract(<d's components>)` for `d = Duration(**signature)`)
+* `c04comps <8 signature ints>` → `ok years months weeks rdays hours minutes rsecs us days secs` then the same for `-d`
+* `c04date <add|subtract> <day number> <years> <months> <weeks> <days>` → `ok <day number>`
+* `c04datedur <plus|minus|plusneg|subcomp> <day number> <8 signature ints>` → `ok <day number>` -/
 namespace Pendulum.Drv.C04
-open Pendulum Pendulum.Drv
+open Pendulum Pendulum.Drv Pendulum.DTOps Pendulum.CalOps
 
-def handle (_zs : Zones) (ws : List String) : Option String :=
+def mkSig : List Int → Option Sig
+  | [y, mo, wk, dd, hh, mi, s, us] => some ⟨y, mo, wk, dd, hh, mi, s, us⟩
+  | _ => none
+
+def comps (d : Dur) : List Int :=
+  [d.years, d.months, d.weeks, d.rdays, d.hours, d.minutes, d.rsecs, d.us, d.days, d.secs]
+
+def replyN : Except AddDur.Err Int → String
+  | .ok n => okInts [n]
+  | .error .valueError => "err ValueError"
+  | .error .overflow => "err OverflowError"
+
+def handle (zs : Zones) (ws : List String) : Option String :=
   match ws with
+  | "c04dur" :: mode :: z :: w :: f :: rest => do
+    let v ← parseV zs z w f
+    let s ← (ints rest).bind mkSig
+    let d := mkDur s
+    match mode with
+    | "plus" => some (replyV (addDur v d))
+    | "minus" => some (replyV (subDur v d))
+    | "plusneg" => some (replyV (addDur v (neg d)))
+    | "subcomp" => some (replyV (subComponents v d))
+    | _ => none
+  | "c04comps" :: rest => do
+    let s ← (ints rest).bind mkSig
+    let d := mkDur s
+    some (okInts (comps d ++ comps (neg d)))
+  | ["c04date", mode, n, a, b, c, d] => do
+    match ints [n, a, b, c, d] with
+    | some [n, y, mo, wk, dd] =>
+      match mode with
+      | "add" => some (replyN (dateAdd n y mo wk dd))
+      | "subtract" => some (replyN (dateSubtract n y mo wk dd))
+      | _ => none
+    | _ => none
+  | "c04datedur" :: mode :: n :: rest => do
+    let n ← n.toInt?
+    let s ← (ints rest).bind mkSig
+    let d := mkDur s
+    match mode with
+    | "plus" => some (replyN (dateAddDur n d))
+    | "minus" => some (replyN (dateSubDur n d))
+    | "plusneg" => some (replyN (dateAddDur n (neg d)))
+    | "subcomp" => some (replyN (dateSubtract n d.years d.months d.weeks d.rdays))
+    | _ => none
   | _ => none
 
 end Pendulum.Drv.C04
